@@ -13,12 +13,14 @@ T = {
         "Proved for all inputs on the real source: TransformQuerySegment.predecessor / Query.predecessor split a query into (everything left of the "
         "last step, the last step) with prefix ++ [last] == actions, file name peeled first, header and absoluteness preserved, the receiver "
         "unchanged; Context.create_initial_state hands the injected input value unchanged to the first action (and nothing when none is given); "
-        "State.with_data keeps the data as given. That each step applies the registered function to the predecessor's value and the converted "
+        "State.with_data keeps the data as given; CommandExecutable.parse_argv hands the textual arguments of an action to the argument parser "
+        "unchanged and in order, followed only by keyword values and declared defaults, and returns only when the parser consumed every argument. "
+        "That each step applies the registered function to the predecessor's value and the converted "
         "arguments, left to right, is NOT proved: it is explored by a direct reference interpreter Sem (39-command vocabulary, every argument "
         "shape, links to depth 2/3, file names, injected inputs incl. falsy ones, extra parameters; ~7.5k queries quick) and by a run-time "
         "contract on command_metadata_from_callable / the argument parsers (annotation wins over the default's type; 170 cases).",
         "Category is exploration because the deciding part (composition semantics of evaluate_action / evaluate_parameter / parse_argv) is "
-        "bounded; 33 deductive obligations cover the decomposition the evaluator recurses on and the initial state. Three recorded findings "
+        "bounded; the deductive obligations cover the decomposition the evaluator recurses on and the initial state. Three recorded findings "
         "(KNOWN-FINDING lines) are genuine deviations of the library that were not repaired. " + BOUNDED),
 "C02": ("exploration",
         "contract-based deductive verification of the encode side (ActionRequest / SegmentHeader / TransformQuerySegment / Query.encode) + "
@@ -67,7 +69,8 @@ T = {
         "Proved: a failed prefix short-circuits (no action runs, the result is an error state); every failure inside evaluate_action - unknown "
         "command, argument error, exception of the command - is flagged (is_error, status error) and the command runs at most once; a failing "
         "link argument (evaluate_parameter) is logged and surfaces as an EvaluationException that names the query being evaluated and the "
-        "position of the failing argument, and a link that failed never yields a value; State.get never hands out the data of an error state. Which message / position / query text the error record carries is explored only (failing "
+        "position of the failing argument, and a link that failed never yields a value; parse_argv turns a surplus or unconvertible argument into an ArgumentParserException that names "
+        "the query being evaluated; State.get never hands out the data of an error state. Which message / position / query text the error record carries is explored only (failing "
         "action at every position and in every way); four deviations there are recorded findings.",
         "KNOWN-FINDING lines name four genuine, unrepaired deviations in the error record (not in the containment itself). " + BOUNDED),
 "C07": ("proof",
